@@ -6,8 +6,10 @@ import (
 	"bytes"
 	"crypto/sha256"
 	"fmt"
+	"github.com/ethereum/go-ethereum/p2p/enode"
 	"math/rand"
 	"net"
+	"sort"
 	"time"
 )
 
@@ -85,6 +87,66 @@ func runContentLookup(o *Out, r *rand.Rand, thorough bool, _ []string) {
 			}
 			o.Case(fmt.Sprintf("clookup holders=%d size=%d nodes=%d", holders, size, n), out)
 		}
+		for _, nd := range nodes {
+			nd.stop()
+		}
+	}
+	// a wide network: far more peers answer than a result holds. The asker knows the 16 peers FARTHEST from the content;
+	// only the three farthest of those (asked last) name seven closer peers; the closest of all holds the content.
+	wide := 1
+	if thorough {
+		wide = 6
+	}
+	for wr := 0; wr < wide; wr++ {
+		mn := newMemNet()
+		key := []byte(fmt.Sprintf("cl-wide-%d-%d", wr, r.Intn(1000)))
+		idh := sha256.Sum256(key)
+		n := 24
+		nodes := make([]*realNode, n)
+		for i := range nodes {
+			nodes[i] = startNode(mn, r, nodeOpts{ip: net.IP{34, byte(100 + i), byte(wr), 1}, port: 9950 + i, utpLimit: 50})
+		}
+		asker := nodes[0]
+		peers := append([]*realNode{}, nodes[1:]...)
+		sort.Slice(peers, func(a, b int) bool { // farthest from the content first
+			return enode.DistCmp(enode.ID(idh), peers[a].p.Self().ID(), peers[b].p.Self().ID()) > 0
+		})
+		for _, p := range peers[:16] {
+			asker.p.AddEnr(p.p.Self())
+		}
+		for _, p := range peers[:3] {
+			for _, q := range peers[16:] {
+				p.p.AddEnr(q.p.Self())
+			}
+		}
+		val := genBytes(900, wr)
+		_ = peers[len(peers)-1].store.Put(key, idh[:], val)
+		type res struct {
+			data []byte
+			err  error
+		}
+		ch := make(chan res, 1)
+		go func() {
+			defer func() {
+				if rec := recover(); rec != nil {
+					ch <- res{nil, fmt.Errorf("panic: %v", rec)}
+				}
+			}()
+			d, _, err := asker.p.ContentLookup(key, idh[:])
+			ch <- res{d, err}
+		}()
+		var out string
+		select {
+		case x := <-ch:
+			if x.err != nil {
+				out = "notfound"
+			} else {
+				out = fmt.Sprintf("found genuine=%d", b2i(bytes.Equal(x.data, val)))
+			}
+		case <-time.After(60 * time.Second):
+			out = "wedged"
+		}
+		o.Case(fmt.Sprintf("clookup holders=1 size=900 nodes=%d wide=1", n), out)
 		for _, nd := range nodes {
 			nd.stop()
 		}
